@@ -44,7 +44,8 @@ BINOPS = {"add": operator.add, "sub": operator.sub, "mul": operator.mul, "floord
           "mod": operator.mod, "pow": operator.pow, "lshift": operator.lshift, "rshift": operator.rshift,
           "lt": operator.lt, "le": operator.le, "eq": operator.eq, "ne": operator.ne, "ge": operator.ge, "gt": operator.gt,
           "and": operator.and_, "or": operator.or_, "xor": operator.xor,
-          "truediv": operator.truediv}          # float result: oracle only, class T (XLA may multiply by a reciprocal)
+          "truediv": operator.truediv,
+          "divmod": divmod}                     # (v // w, v % w): oracle only, compared part by part          # float result: oracle only, class T (XLA may multiply by a reciprocal)
 UNOPS = {"neg": operator.neg, "pos": operator.pos, "abs": operator.abs, "invert": operator.invert,
          "conj": lambda v: v.conj(), "real": lambda v: v.real, "imag": lambda v: v.imag}
 
@@ -182,7 +183,7 @@ def num_leaves(t):
 
 def operand_ranges(f):
     """value ranges that keep every operation exact and defined (no division by zero, small shifts / exponents)"""
-    if f in ("floordiv", "mod", "truediv"):
+    if f in ("floordiv", "mod", "truediv", "divmod"):
         return dict(lo=-9, hi=9), dict(lo=-5, hi=5, nonzero=True)
     if f == "pow":
         return dict(lo=-4, hi=4), dict(lo=0, hi=3)
@@ -252,6 +253,21 @@ def flat_expect_binop(case):
 
 
 def oracle_binop(case):
+    if case["f"] == "divmod":
+        # divmod(a, b) == (a // b, a % b), each with flat semantics
+        for part, f2 in enumerate(("floordiv", "mod")):
+            boolean = False
+            a, b = _operand(case["lhs"], boolean), _operand(case["rhs"], boolean)
+            try:
+                got = divmod(a, b)[part]
+            except Exception as e:
+                same = not ("tree" in case["lhs"] and "tree" in case["rhs"]) or \
+                    json.dumps(_struct(case["lhs"]["tree"])) == json.dumps(_struct(case["rhs"]["tree"]))
+                return (f"divmod raised {type(e).__name__} on compatible operands", dict(op="binop", f="divmod", what="raised")) if same else None
+            exp = flat_expect_binop(dict(case, f=f2))
+            if not np.array_equal(flat(got), exp):
+                return ("divmod(v, w) differs from (v // w, v % w) on the flat arrays", dict(op="binop", f="divmod", what="value"))
+        return None
     res, r = real_binop(case)
     if r is None:
         # an error is only acceptable when the operands really differ in structure
@@ -341,6 +357,18 @@ def oracle_reduce(case):
     for k, v in exp.items():
         if r[k] != v:
             return (f"{k}(tree) = {r[k]} differs from the flat-array value {v}", dict(sig, what=k))
+    # any / all / shape / Vector.size / Vector.shape: structure helpers with flat semantics
+    from nifty.re.tree_math.vector import Vector
+    t = to_py(case["x"])
+    try:
+        extra = dict(any=bool(jft.any(t)), all=bool(jft.all(t)), shape=tuple(jft.shape(t)), vsize=Vector(t).size, vshape=Vector(t).shape)
+    except Exception as e:
+        return (f"any/all/shape raised {type(e).__name__}", dict(sig, what="helpers-raised"))
+    want = dict(any=bool(x.any()), all=bool(x.all()) if x.size else True, shape=(x.size,), vsize=x.size, vshape=(x.size,))
+    if x.size:
+        for k_, v_ in want.items():
+            if extra[k_] != v_:
+                return (f"{k_}(tree) = {extra[k_]} differs from the flat-array value {v_}", dict(sig, what=k_))
     n2 = float(np.sqrt(float((x.astype(np.int64) ** 2).sum())))
     if isinstance(r["norm2"], dict) or abs(r["norm2"] - n2) > 1e-12 * (1 + n2):
         return (f"norm(tree, 2) = {r['norm2']} differs from the flat-array value {n2}", dict(sig, what="norm2"))
@@ -490,7 +518,22 @@ def gen_smap(rng):
         outs.append(dict(expr=e, axis=axis, ndim=nd_out))
     # how the flat argument leaves are grouped into positional arguments (pytree-valued in_axes)
     group = rng.choice(["flat", "flat", "nested", "dict"])
-    return dict(op="smap", args=args, outs=outs, len=L, group=group, int_axes=rng.random() < 0.15, jit=rng.random() < 0.3)
+    case = dict(op="smap", args=args, outs=outs, len=L, group=group, int_axes=rng.random() < 0.25, jit=rng.random() < 0.3,
+                unroll=rng.choice([1, 1, 1, 2, 3]))
+    if case["int_axes"] and rng.random() < 0.6:
+        # make an integer specification possible: every argument mapped along the same axis, every output along the same axis
+        k_ = rng.choice([0, 1, -1])
+        for a in case["args"]:
+            nd = rng.choice([2, 3])
+            shape = [rng.choice([1, 2, 3]) for _ in range(nd)]
+            shape[k_] = L
+            a.update(shape=shape, vals=[rng.randint(-5, 5) for _ in range(int(np.prod(shape)))], axis=k_)
+        j_ = rng.randrange(len(case["args"]))
+        sh = list(case["args"][j_]["shape"])
+        del sh[k_ % len(sh)]
+        case["outs"] = [dict(expr=["arg", j_], axis=rng.choice([0, 1, -1]), ndim=len(sh) + 1)]
+        case["group"] = "flat"
+    return case
 
 
 def _eval_expr(e, leaves):
@@ -529,8 +572,10 @@ def build_smap_call(case):
         lv = tree_leaves(xs)
         return tuple(_eval_expr(o["expr"], lv) for o in outs)
     out_axes = tuple(o["axis"] for o in outs)
-    if case.get("int_axes") and all(a == 0 for a in axes) and all(o == 0 for o in out_axes):
-        in_axes, out_axes = 0, 0
+    if case.get("int_axes") and len(set(axes)) == 1 and axes[0] is not None and case["group"] == "flat":
+        in_axes = axes[0]                  # one integer for all arguments
+    if case.get("int_axes") and len(set(out_axes)) == 1 and out_axes[0] is not None:
+        out_axes = out_axes[0]
     return f, pos, in_axes, out_axes
 
 
@@ -546,7 +591,8 @@ def real_maps(case):
     res = {}
     for name, m in (("smap", smap), ("lmap", lmap), ("vmap", jax.vmap)):
         try:
-            g = m(f, in_axes=in_axes, out_axes=out_axes)
+            kw = dict(unroll=case["unroll"]) if (name == "smap" and case.get("unroll", 1) != 1) else {}
+            g = m(f, in_axes=in_axes, out_axes=out_axes, **kw)
             if case.get("jit"):
                 g = jax.jit(g)          # the maps are used under an outer jit by optimize_kl (kl_map / residual_map)
             r = g(*pos)
@@ -757,7 +803,7 @@ def _corpus():
 def model_request(case):
     if case["op"] == "smap":
         return dict(op="smap", cfg="fixed", args=case["args"], outs=case["outs"], len=case["len"])
-    if case["op"] == "binop" and case["f"] == "truediv":
+    if case["op"] == "binop" and case["f"] in ("truediv", "divmod"):
         t = case["lhs"].get("tree") or case["rhs"].get("tree")
         return dict(op="reduce", x=t)                # float division is not modelled: placeholder request
     if case["op"] == "cplx":
@@ -824,7 +870,7 @@ def run(ctx):
                 if r:
                     ctx.counterexample(c, *r)
                 continue
-            if k == "binop" and c["f"] == "truediv":
+            if k == "binop" and c["f"] in ("truediv", "divmod"):
                 ctx.case(c, True)
                 r = oracle(c)
                 if r:
